@@ -28,7 +28,9 @@ class SPEC:
             "several KB each, some larger than the 4096-byte bufio buffer) with random multi-cuts: 1-byte dribble, cuts at message "
             "boundaries +-1, few big coalesced segments, whole stream in one segment, end-of-stream in the middle of a message; "
             "(c) two or three interleaved connections of one collecting process (own or shared observation domain), one of them "
-            "carrying an invalid message. Open/closed state is observed after the segments. Non-trivial = at least one cut strictly "
+            "carrying an invalid message. The collector is created with TemplateTTL = 1 s (legal on a TCP collector, without effect there) "
+            "and the harness's clock; `fr tick` between segments lets a day pass and fires whatever was scheduled on that clock - "
+            "nothing may be, templates of a TCP session do not age. Open/closed state is observed after the segments. Non-trivial = at least one cut strictly "
             "inside a message; distinct by hash of the op list.")
     assumptions = [
         "TCP is a reliable byte stream: whatever the network and the timing do, the reader's Reads return some segmentation of the "
@@ -238,10 +240,12 @@ def segments(s, cuts):
     return [s[a:b] for a, b in zip(pts, pts[1:]) if b > a]
 
 
-def cut_case(stream, s, bounds, cuts, label, state_each=False):
+def cut_case(stream, s, bounds, cuts, label, state_each=False, tick=False):
     ops = ["fr new " + stream.mode, "fr open 1"]
     for seg in segments(s, cuts):
         ops.append("fr seg 1 " + seg.hex())
+        if tick:
+            ops.append("fr tick")     # a long time passes before the next segment: templates of a TCP session do not age
         if state_each:
             ops.append("fr state 1")
     if not state_each:
@@ -256,7 +260,7 @@ def exhaustive_cases(stream, double):
     L = len(s)
     out = [cut_case(stream, s, bounds, [], "cut0:" + stream.label)]
     for i in range(1, L):
-        out.append(cut_case(stream, s, bounds, [i], "cut1:" + stream.label))
+        out.append(cut_case(stream, s, bounds, [i], "cut1:" + stream.label, tick=(i % 3 == 0)))
     if double:
         for i, j in itertools.combinations(range(1, L), 2):
             out.append(cut_case(stream, s, bounds, [i, j], "cut2:" + stream.label))
@@ -291,7 +295,8 @@ def long_case(rng):
     s = st.bytes()
     bounds = st.bounds()
     style, cuts = multicuts(rng, s, bounds)
-    c = cut_case(st, s, bounds, cuts, "%s:%s" % (st.label.split(":")[0], style), state_each=len(cuts) < 60)
+    c = cut_case(st, s, bounds, cuts, "%s:%s" % (st.label.split(":")[0], style), state_each=len(cuts) < 60,
+                 tick=len(cuts) < 60 and rng.random() < 0.3)
     r = rng.random()
     if r < 0.25:
         # the peer goes away in the middle of the stream (usually in the middle of a message)
@@ -324,6 +329,8 @@ def interleaved_case(rng):
     while live:
         i = rng.choice(live)
         ops.append(queues[i].pop(0))
+        if rng.random() < 0.15:
+            ops.append("fr tick")
         for j in range(nconn):
             ops.append("fr state %d" % (j + 1))
         if not queues[i]:
